@@ -431,6 +431,29 @@ fn o6_1_aabb_shift() {
 }
 
 // ---------------------------------------------------------------------------
+// K-OVL: the one geometric primitive engine T re-implements (closed-segment
+// containment, behind Property::line_overlap) against the real code
+
+//@ harness: kovl_line_overlaps_exact props=C03,C12,C14 tier=quick obl=K-OVL timeout=800 mem=10
+//@ desc: a signature line and two query points, all on the eighth-unit lattice of one cell ([0,1] x [0,2], the coordinates every table entry uses): the real Line::overlaps(a, b) (parry Segment::contains_point with its relative epsilon) <=> both points lie on the closed segment (exact integer cross/dot products) - the semantics engine T assumes when it turns `N.line_overlap(p, q)` into a set of characters
+//@ encodes: Line::overlaps, Fragment::line_overlap, parry Segment::contains_point
+#[kani::proof]
+#[kani::stub(std::io::_print, crate::kstub::noop_print)]
+fn kovl_line_overlaps_exact() {
+    // eighth units: x in 0..8, y in 0..16
+    let (sx, sy, ex, ey) = (any_in(0, 8), any_in(0, 16), any_in(0, 8), any_in(0, 16));
+    kani::assume((sx, sy) != (ex, ey));
+    let (ax, ay, bx, by) = (any_in(0, 8), any_in(0, 16), any_in(0, 8), any_in(0, 16));
+    let p = |x: i32, y: i32| Point::new(x as f32 * 0.125, y as f32 * 0.125);
+    let l = Line::new(p(sx, sy), p(ex, ey), false);
+    let got = l.overlaps(p(ax, ay), p(bx, by));
+    let expected = on_seg(sx, sy, ex, ey, ax, ay) && on_seg(sx, sy, ex, ey, bx, by);
+    kani::cover!(got && (ax, ay) != (bx, by) && (ax, ay) != (sx, sy), "a proper sub-segment is covered");
+    kani::cover!(!got, "a segment that is not covered");
+    assert!(got == expected, "K-OVL Line::overlaps is exact closed-segment containment on the cell lattice");
+}
+
+// ---------------------------------------------------------------------------
 // C14 — bullets: line + circle => marker line ending at the circle centre
 
 //@ harness: o14_4_merge_circle props=C14 tier=quick obl=O14.4 timeout=1800 mem=8
